@@ -339,6 +339,23 @@ Theorem C06_wait_sound : forall t0 evs,
 Proof. exact rt_wait_sound. Qed.
 Print Assumptions C06_wait_sound.
 
+(* coap_io_process (the library's own loop, epoll build, no datagram arriving): fires what is
+   due, sleeps never longer than the reported wait - hence never past the earliest pending
+   deadline - and "for ever" only when nothing is pending and the caller allowed it; afterwards
+   again nothing due is left; returns the time it slept *)
+Theorem C06_io_process_sound : forall st tmo,
+  rt_tinv st -> 0 <= tmo < 4294967296 ->
+  let (st', o) := rt_io_process st tmo in
+  exists st1 o1 w hd o3,
+    rt_fire_all st = (st1, o1) /\ rt_wait st1 = (w, hd) /\ rt_wait_ok st1 w hd /\
+    let et := rt_epoll_timeout w tmo in
+    o = o1 ++ RoEpoll (rs_now st) et :: o3 ++ [RoIoRet (rs_now st') (rs_now st' - rs_now st)] /\
+    ~ In RoFuel o /\ rt_due st' = false /\ rt_tinv st' /\
+    rs_now st' = rs_now st + (if 0 <? et then et else 0) /\
+    (et = -1 -> w = 0 /\ tmo = rt_IO_WAIT) /\ (0 < w < 2147483648 -> 0 <= et <= w).
+Proof. exact rt_io_process_sound. Qed.
+Print Assumptions C06_io_process_sound.
+
 Theorem C06_loop_bound : forall evs st, Forall rt_ev_ok evs -> rt_tinv st ->
   rt_tinv (fst (rt_run st evs)) /\ ~ In RoFuel (snd (rt_run st evs)).
 Proof. exact rt_run_tinv. Qed.
